@@ -52,6 +52,40 @@ class AddImplicitCastVisitor(Visitor.DefaultVisitor):
                 )
             )
 
+    def _ConvertTo(self, expression, targetType):
+        """Wrap an expression whose value is converted when it is stored as
+        (or returned as) `targetType` in a cast."""
+        convertedType = types.ResolveAssignmentType(
+            targetType, expression.GetType()
+        )
+        if convertedType != expression.GetType():
+            return ast.CastExpression(expression, convertedType, True)
+        return expression
+
+    def v_VariableDeclaration(self, node, ctx=None):
+        assert isinstance(node, ast.VariableDeclaration)
+
+        if node.HasInitializerExpression():
+            self.v_Generic(node.GetInitializerExpression(), ctx)
+            node.SetInitializerExpression(
+                self._ConvertTo(node.GetInitializerExpression(), node.GetType())
+            )
+
+    def v_Function(self, node, ctx=None):
+        assert isinstance(node, ast.Function)
+
+        self._returnType = node.GetType().GetReturnType()
+        node.AcceptVisitor(self, ctx)
+
+    def v_ReturnStatement(self, node, ctx=None):
+        assert isinstance(node, ast.ReturnStatement)
+
+        if node.GetExpression():
+            self.v_Generic(node.GetExpression(), ctx)
+            node.SetExpression(
+                self._ConvertTo(node.GetExpression(), self._returnType)
+            )
+
     def v_ConstructPrimitiveExpression(self, node, ctx=None):
         assert node
         assert isinstance(node, ast.ConstructPrimitiveExpression)
